@@ -1,19 +1,464 @@
-(* Markdown: the two places where today's writer and reader are not inverse, as vm_compute witnesses over the models
-   (both replayed on the real binary: findings markdown-escaped-bar-not-unescaped, markdown-dash-only-row-dropped). *)
-From Miller Require Import Base.Bytes Base.Record C01.Model C01.ModelXtab C01.ModelLite C01.ModelPprint C01.ModelMd.
+(* Markdown: writer then reader is the identity (streaming writer and --omd-aligned writer), for EVERY display-width
+   function.  The reader (pkg/input/record_reader_markdown.go since /repo 80287c7ad, 75f65c604, 6be21e050) splits a row
+   at bars not preceded by a backslash, turns "\|" into "|", trims every cell with strings.TrimSpace and takes only the
+   second line of a block for the header-separator line. *)
+From Miller Require Import Base.Bytes Base.Record C01.Model C01.ModelXtab C01.ModelLite C01.ModelPprint C01.ModelMd
+     C01.ProofsUtil C01.ProofsTsv C01.ProofsDkvp C01.ProofsCsv C01.ProofsLite C01.ProofsPprint C01.ProofsBarred.
 Open Scope char_scope.
 
-(* the writer escapes "|" as "\|", the reader splits on every "|": header/data length mismatch *)
-Lemma markdown_escaped_bar_refuted :
-  exists recs, forallb (fun r => negb (is_nil r) && nodupb (keys r)) recs = true
-    /\ read_markdown false true false (write_markdown (@List.length ascii) false false recs) <> Some recs.
-Proof. exists [[(B "a", B "x|y"); (B "b", B "2")]]. split; [reflexivity|]. vm_compute. discriminate. Qed.
+(* ---------------------------------------------------------------- the splitter undoes the writer's escaping *)
+Lemma md_escape_cons c x : md_escape (c :: x) = (if eqc c BAR then [BSL; BAR] else [c]) ++ md_escape x.
+Proof. reflexivity. Qed.
 
-(* a data row whose cells consist of "-" and spaces only matches the header-separator pattern and is skipped *)
-Lemma markdown_dash_row_refuted :
-  exists recs, forallb (fun r => negb (is_nil r) && nodupb (keys r)) recs = true
-    /\ read_markdown false true false (write_markdown (@List.length ascii) false false recs) <> Some recs.
-Proof. exists [[(B "a", B "-"); (B "b", B "")]]. split; [reflexivity|]. vm_compute. discriminate. Qed.
+Lemma md_escape_nobar x : nochar BAR x = true -> md_escape x = x.
+Proof.
+  induction x as [|c x IH]; intros H; [reflexivity|]. cbn [nochar forallb] in H. apply andb_true_iff in H as [Hc H].
+  rewrite md_escape_cons. apply negb_true_iff in Hc. rewrite Hc. cbn [app]. f_equal. now apply IH.
+Qed.
+
+Lemma md_go_esc x : forall pb acc rest,
+  md_split_go (md_escape x ++ SP :: rest) pb acc = md_split_go rest false (SP :: rev x ++ acc).
+Proof.
+  induction x as [|c x IH]; intros pb acc rest; [reflexivity|].
+  rewrite md_escape_cons. destruct (eqc c BAR) eqn:E.
+  - apply eqc_eq in E. subst c. cbn [app].
+    change (md_split_go (BSL :: BAR :: md_escape x ++ SP :: rest) pb acc)
+      with (md_split_go (md_escape x ++ SP :: rest) false (BAR :: acc)).
+    rewrite IH. cbn [rev]. now rewrite <- app_assoc.
+  - cbn [app md_split_go]. rewrite E. rewrite IH. cbn [rev]. now rewrite <- app_assoc.
+Qed.
+
+Lemma md_go_spaces n : forall rest acc, md_split_go (spaces n ++ rest) false acc = md_split_go rest false (spaces n ++ acc).
+Proof.
+  induction n as [|n IH]; intros rest acc; [reflexivity|]. rewrite spaces_S. cbn [app].
+  change (md_split_go (SP :: spaces n ++ rest) false acc) with (md_split_go (spaces n ++ rest) false (SP :: acc)).
+  rewrite IH. now rewrite spaces_snoc.
+Qed.
+
+(* a cell as both writers write it: a space, the escaped text, padding + one space, a bar *)
+Definition gcell (xp : bytes * nat) : bytes := SP :: md_escape (fst xp) ++ spaces (S (snd xp)) ++ [BAR].
+Definition grow (cells : list (bytes * nat)) : bytes := BAR :: List.concat (map gcell cells).
+Definition gfield (xp : bytes * nat) : bytes := SP :: fst xp ++ spaces (S (snd xp)).
+
+Lemma md_go_cells cells : md_split_go (List.concat (map gcell cells)) false [] = map gfield cells ++ [[]].
+Proof.
+  induction cells as [|[x p] cells IH]; [reflexivity|]. cbn [map List.concat]. unfold gcell at 1. cbn [fst snd].
+  rewrite spaces_S. cbn [app]. rewrite <- !app_assoc. cbn [app]. rewrite <- ?app_assoc. cbn [app].
+  change (md_split_go (SP :: ?t) false []) with (md_split_go t false [SP]).
+  rewrite md_go_esc, md_go_spaces. cbn [md_split_go]. change (eqc BAR BAR) with true. cbn iota.
+  rewrite IH. cbn [app map]. f_equal. unfold gfield. cbn [fst snd].
+  rewrite rev_app_distr, rev_spaces. cbn [rev]. rewrite rev_app_distr, rev_involutive. cbn [rev app].
+  rewrite <- !app_assoc. cbn [app]. now rewrite spaces_S.
+Qed.
+
+Lemma md_split_grow cells : md_split (grow cells) = [] :: map gfield cells ++ [[]].
+Proof.
+  unfold grow, md_split. cbn [md_split_go]. change (eqc BAR BAR) with true. cbn iota. cbn [rev]. now rewrite md_go_cells.
+Qed.
+
+Lemma trim_gfield x p : trim_ok x = true -> trim_space (gfield (x, p)) = x.
+Proof. intros H. unfold gfield. cbn [fst snd]. change (SP :: x ++ spaces (S p)) with (spaces 1 ++ x ++ spaces (S p)). now apply trim_padded. Qed.
+
+Definition row_ok (l : bytes) (fs : list bytes) : Prop :=
+  is_nil l = false /\ Nat.ltb (List.length (md_split l)) 2 = false /\ map trim_space (middle (md_split l)) = fs.
+
+Lemma grow_ok cells : forallb trim_ok (map fst cells) = true -> row_ok (grow cells) (map fst cells).
+Proof.
+  intros H. split; [reflexivity|]. rewrite md_split_grow. split.
+  - cbn [List.length]. rewrite app_length. cbn [List.length]. apply Nat.ltb_ge. lia.
+  - rewrite middle_row. induction cells as [|[x p] cells IH]; [reflexivity|]. cbn [map fst forallb] in *.
+    apply andb_true_iff in H as [Hx H]. rewrite trim_gfield by assumption. f_equal. now apply IH.
+Qed.
+
+Lemma concat_gcell_last cells : cells <> [] -> exists q, List.concat (map gcell cells) = q ++ [BAR].
+Proof.
+  induction cells as [|xp cells IH]; [congruence|]. intros _. destruct cells as [|y cells].
+  - exists (SP :: md_escape (fst xp) ++ spaces (S (snd xp))). cbn [map List.concat]. rewrite app_nil_r. unfold gcell.
+    cbn [app]. now rewrite <- app_assoc.
+  - destruct IH as [q Hq]; [discriminate|]. exists (gcell xp ++ q).
+    change (List.concat (map gcell (xp :: y :: cells))) with (gcell xp ++ List.concat (map gcell (y :: cells))).
+    rewrite Hq. now rewrite app_assoc.
+Qed.
+
+Lemma grow_line_ok crlf cells : forallb (nochar LF) (map fst cells) = true -> line_ok crlf (grow cells) = true.
+Proof.
+  intros H. unfold line_ok.
+  assert (Hc : forall cells, forallb (nochar LF) (map fst cells) = true -> nochar LF (List.concat (map gcell cells)) = true).
+  { clear. induction cells as [|[x p] cells IH]; intros H; [reflexivity|]. cbn [map fst forallb] in H.
+    apply andb_true_iff in H as [Hx H]. cbn [map List.concat]. rewrite nochar_app, (IH H), andb_true_r.
+    unfold gcell. cbn [fst snd]. change (SP :: ?a) with ([SP] ++ a). rewrite !nochar_app, nochar_spaces by reflexivity.
+    assert (He : nochar LF (md_escape x) = true).
+    { clear -Hx. induction x as [|c x IH]; [reflexivity|]. cbn [nochar forallb] in Hx. apply andb_true_iff in Hx as [Hc Hx].
+      rewrite md_escape_cons, nochar_app, (IH Hx), andb_true_r. destruct (eqc c BAR); [reflexivity|].
+      cbn [nochar forallb]. now rewrite Hc. }
+    now rewrite He. }
+  unfold grow. change (BAR :: ?a) with ([BAR] ++ a). rewrite nochar_app, (Hc _ H). cbn [nochar forallb negb andb].
+  replace (ends_cr ([BAR] ++ List.concat (map gcell cells))) with false; [now rewrite orb_true_r|].
+  symmetry. destruct cells as [|xp cells]; [reflexivity|].
+  destruct (concat_gcell_last (xp :: cells)) as [q Hq]; [discriminate|].
+  rewrite Hq, app_assoc. now rewrite ends_cr_app_ne by discriminate.
+Qed.
+
+Lemma map_fst_pair {A B} (f : A -> B) (g : A -> nat) l : map fst (map (fun x => (f x, g x)) l) = map f l.
+Proof. rewrite map_map. reflexivity. Qed.
+
+Lemma grow_pair_ok {A} (f : A -> bytes) (g : A -> nat) l :
+  forallb trim_ok (map f l) = true -> row_ok (grow (map (fun x => (f x, g x)) l)) (map f l).
+Proof. intros H. pose proof (grow_ok (map (fun x => (f x, g x)) l)) as G. rewrite map_fst_pair in G. now apply G. Qed.
+Lemma grow_pair_line_ok {A} crlf (f : A -> bytes) (g : A -> nat) l :
+  forallb (nochar LF) (map f l) = true -> line_ok crlf (grow (map (fun x => (f x, g x)) l)) = true.
+Proof. intros H. apply grow_line_ok. now rewrite map_fst_pair. Qed.
+
+(* ---------------------------------------------------------------- the reader *)
+Section Read.
+Variables (d rg : bool).
+Notation R := (md_read_go false d rg).
+
+Lemma M_blank hdr n rest : R hdr n ([] :: rest) = R None 0 rest.
+Proof. reflexivity. Qed.
+Lemma M_header hl ks rest : row_ok hl ks -> R None 0 (hl :: rest) = R (Some ks) 1 rest.
+Proof. intros (H1 & H2 & H3). cbn [md_read_go]. rewrite H1. unfold md_is_sep. cbn [Nat.eqb andb]. now rewrite H2, H3. Qed.
+Lemma M_sep l hdr rest : is_nil l = false -> sep_md l = true -> R hdr 1 (l :: rest) = R hdr 2 rest.
+Proof. intros H1 H2. cbn [md_read_go]. rewrite H1. unfold md_is_sep. cbn [Nat.eqb andb]. now rewrite H2. Qed.
+Lemma M_data n l r rest : 2 <= n -> row_ok l (values r) -> NoDup (keys r) ->
+  R (Some (keys r)) n (l :: rest) = match R (Some (keys r)) (S n) rest with None => None | Some rs => Some (r :: rs) end.
+Proof.
+  intros Hn (H1 & H2 & H3) Hnd. cbn [md_read_go]. rewrite H1. unfold md_is_sep.
+  replace (Nat.eqb (S n) 2) with false by (symmetry; apply Nat.eqb_neq; lia). cbn [andb]. rewrite H2, H3.
+  assert (Hl : List.length (keys r) = List.length (values r)) by (unfold keys, values; now rewrite !map_length).
+  rewrite Hl, Nat.eqb_refl. cbn [orb].
+  rewrite attach_combine; [cbn [app]; now rewrite combine_keys_values|exact Hl|exact Hnd].
+Qed.
+Lemma M_batch (dl : record -> bytes) ks batch : forall n rest, 2 <= n ->
+  (forall r, In r batch -> keys r = ks /\ row_ok (dl r) (values r) /\ NoDup (keys r)) ->
+  R (Some ks) n (map dl batch ++ rest)
+  = match R (Some ks) (n + List.length batch) rest with None => None | Some rs => Some (batch ++ rs) end.
+Proof.
+  induction batch as [|r batch IH]; intros n rest Hn H.
+  - cbn [map app List.length]. rewrite Nat.add_0_r. now destruct (R (Some ks) n rest).
+  - destruct (H r (or_introl eq_refl)) as (Hk & Hs & Hnd). cbn [map app]. rewrite <- Hk.
+    rewrite M_data by assumption. rewrite Hk. rewrite IH by (try lia; intros r' Hr'; apply H; now right).
+    cbn [List.length]. rewrite Nat.add_succ_r. cbn [Nat.add]. now destruct (R (Some ks) (S (n + List.length batch)) rest).
+Qed.
+End Read.
+
+(* ---------------------------------------------------------------- the domain *)
+Definition md_key_ok (k : bytes) : bool := nochar BAR k && nochar LF k && nochar COMMA k && trim_ok k.
+Definition md_val_ok (v : bytes) : bool := nochar LF v && trim_ok v.
+(* records non-empty with unique keys; cells free of LF and unchanged by strings.TrimSpace (no leading or trailing
+   Unicode white space; empty is fine); keys free of "|" (keys are not escaped) and of "," (schema changes are
+   detected on the ","-joined keys); not the single key "" (the joined keys "" mean "no header written yet").
+   VALUES may contain "|" (written "\|"), backslashes, dashes, colons, anything else. *)
+Definition md_rec_ok (r : record) : bool :=
+  negb (is_nil r) && nodupb (keys r) && forallb md_key_ok (keys r) && forallb md_val_ok (values r)
+  && not_single_empty (keys r).
+Definition wf_markdown (recs : list record) : bool := forallb md_rec_ok recs.
+
+Lemma md_facts r : md_rec_ok r = true ->
+  r <> [] /\ NoDup (keys r) /\ keys r <> [] /\ not_single_empty (keys r) = true
+  /\ forallb (freeof [COMMA]) (keys r) = true
+  /\ forallb (nochar BAR) (keys r) = true /\ forallb (nochar LF) (keys r) = true /\ forallb trim_ok (keys r) = true
+  /\ forallb (nochar LF) (values r) = true /\ forallb trim_ok (values r) = true.
+Proof.
+  unfold md_rec_ok. intros H. repeat (apply andb_true_iff in H as [H ?]).
+  assert (Hr : r <> []) by (destruct r; discriminate).
+  assert (Hk : forall P : bytes -> bool, (forall k, md_key_ok k = true -> P k = true) -> forallb P (keys r) = true).
+  { intros P HP. rewrite forallb_forall in *. intros k Hin. apply HP. now apply H2. }
+  assert (Hv : forall P : bytes -> bool, (forall k, md_val_ok k = true -> P k = true) -> forallb P (values r) = true).
+  { intros P HP. rewrite forallb_forall in *. intros k Hin. apply HP. now apply H1. }
+  repeat split; try assumption.
+  - now apply nodupb_NoDup.
+  - destruct r; [congruence|discriminate].
+  - apply Hk. intros k Hk0. unfold md_key_ok in Hk0. repeat (apply andb_true_iff in Hk0 as [Hk0 ?]). now rewrite <- nochar_freeof.
+  - apply Hk. intros k Hk0. unfold md_key_ok in Hk0. now repeat (apply andb_true_iff in Hk0 as [Hk0 ?]).
+  - apply Hk. intros k Hk0. unfold md_key_ok in Hk0. now repeat (apply andb_true_iff in Hk0 as [Hk0 ?]).
+  - apply Hk. intros k Hk0. unfold md_key_ok in Hk0. now repeat (apply andb_true_iff in Hk0 as [Hk0 ?]).
+  - apply Hv. intros k Hk0. unfold md_val_ok in Hk0. now repeat (apply andb_true_iff in Hk0 as [Hk0 ?]).
+  - apply Hv. intros k Hk0. unfold md_val_ok in Hk0. now repeat (apply andb_true_iff in Hk0 as [Hk0 ?]).
+Qed.
+
+(* ---------------------------------------------------------------- rows of the streaming writer *)
+Lemma md_row_grow cells : md_row (map md_escape cells) = grow (map (fun x => (x, 0)) cells).
+Proof.
+  unfold md_row, grow. f_equal. f_equal. rewrite !map_map. apply map_ext. intros x. unfold gcell. cbn [fst snd]. reflexivity.
+Qed.
+Lemma md_row_keys ks : forallb (nochar BAR) ks = true -> md_row ks = grow (map (fun x => (x, 0)) ks).
+Proof.
+  intros H. rewrite <- md_row_grow. f_equal. induction ks as [|k ks IH]; [reflexivity|]. cbn [forallb] in H.
+  apply andb_true_iff in H as [Hk H]. cbn [map]. rewrite md_escape_nobar by assumption. f_equal. now apply IH.
+Qed.
+
+Lemma sep_md_dashes (r : record) : r <> [] ->
+  is_nil (md_row (map (fun _ => DASHES) r)) = false /\ sep_md (md_row (map (fun _ => DASHES) r)) = true
+  /\ forall crlf, line_ok crlf (md_row (map (fun _ => DASHES) r)) = true.
+Proof.
+  intros Hne. split; [reflexivity|].
+  assert (Hg : md_row (map (fun _ => DASHES) r) = grow (map (fun _ => (DASHES, 0)) r)).
+  { rewrite md_row_keys; [now rewrite map_map|]. rewrite forallb_map. now apply forallb_true. }
+  split.
+  - unfold sep_md, md_row.
+    set (P := fun c => eqc c "-" || eqc c ":" || eqc c BAR || eqc c SP).
+    assert (Hall : forall l : record, forallb P (List.concat (map (fun x => SP :: x ++ [SP; BAR]) (map (fun _ => DASHES) l))) = true).
+    { induction l as [|x l IH]; [reflexivity|]. cbn [map List.concat]. rewrite forallb_app, IH. reflexivity. }
+    assert (Hlast : forall l : record, l <> [] ->
+              exists q, List.concat (map (fun x => SP :: x ++ [SP; BAR]) (map (fun _ => DASHES) l)) = q ++ [BAR] /\ 1 <= List.length q).
+    { induction l as [|x l IH]; intros Hl; [congruence|]. cbn [map List.concat]. destruct l as [|y l].
+      - exists (SP :: DASHES ++ [SP]). split; [reflexivity|cbn; lia].
+      - destruct IH as (q & Hq & Hlen); [discriminate|]. rewrite Hq. exists ((SP :: DASHES ++ [SP; BAR]) ++ q).
+        split; [now rewrite <- app_assoc|rewrite app_length; lia]. }
+    destruct (Hlast r Hne) as (q & Hq & Hlen). rewrite Hq.
+    assert (H3 : Nat.leb 3 (List.length (BAR :: q ++ [BAR])) = true).
+    { apply Nat.leb_le. cbn [List.length]. rewrite app_length. cbn [List.length]. lia. }
+    rewrite H3. cbn [head_is]. change (eqc BAR BAR) with true. unfold last_is.
+    change (BAR :: q ++ [BAR]) with ((BAR :: q) ++ [BAR]). rewrite rev_app_distr. cbn [rev app head_is].
+    change (eqc BAR BAR) with true. cbn [andb]. change ((BAR :: q) ++ [BAR]) with (BAR :: q ++ [BAR]). rewrite <- Hq.
+    cbn [forallb]. now rewrite Hall.
+  - intros crlf. rewrite Hg. apply grow_line_ok. rewrite map_map. cbn [fst]. rewrite forallb_map. now apply forallb_true.
+Qed.
+
+(* ---------------------------------------------------------------- the streaming writer *)
+Inductive msync : bytes -> option (list bytes) -> nat -> Prop :=
+| ms_none : msync [] None 0
+| ms_some ks n : ks <> [] -> forallb (freeof [COMMA]) ks = true -> not_single_empty ks = true -> 2 <= n ->
+                 msync (join [COMMA] ks) (Some ks) n.
+
+Section Streaming.
+Variables (d rg : bool).
+Notation R := (md_read_go false d rg).
+
+Lemma key_row_ok r : md_rec_ok r = true -> row_ok (md_row (keys r)) (keys r) /\ forall crlf, line_ok crlf (md_row (keys r)) = true.
+Proof.
+  intros H. destruct (md_facts r H) as (_ & _ & _ & _ & _ & Hb & Hlf & Ht & _).
+  rewrite md_row_keys by assumption. split.
+  - rewrite <- (map_id (keys r)) at 2. apply grow_pair_ok. now rewrite map_id.
+  - intros crlf. apply grow_pair_line_ok. now rewrite map_id.
+Qed.
+Lemma val_row_ok r : md_rec_ok r = true ->
+  row_ok (md_row (map md_escape (values r))) (values r) /\ forall crlf, line_ok crlf (md_row (map md_escape (values r))) = true.
+Proof.
+  intros H. destruct (md_facts r H) as (_ & _ & _ & _ & _ & _ & _ & _ & Hlf & Ht).
+  rewrite md_row_grow. split.
+  - rewrite <- (map_id (values r)) at 2. apply grow_pair_ok. now rewrite map_id.
+  - intros crlf. apply grow_pair_line_ok. now rewrite map_id.
+Qed.
+
+Lemma md_fresh r rest : md_rec_ok r = true ->
+  R None 0 (md_row (keys r) :: md_row (map (fun _ => DASHES) r) :: md_row (map md_escape (values r)) :: rest)
+  = match R (Some (keys r)) 3 rest with None => None | Some rs => Some (r :: rs) end.
+Proof.
+  intros H. destruct (md_facts r H) as (Hne & Hnd & _).
+  rewrite (M_header d rg _ (keys r)) by (now apply key_row_ok).
+  destruct (sep_md_dashes r Hne) as (Hs1 & Hs2 & _). rewrite M_sep by assumption.
+  rewrite M_data; [reflexivity|lia|now apply val_row_ok|exact Hnd].
+Qed.
+
+Lemma md_stream recs : forall last hdr n,
+  msync last hdr n -> forallb md_rec_ok recs = true -> R hdr n (md_lines last recs) = Some recs.
+Proof.
+  induction recs as [|r recs IH]; intros last hdr n Hs H; [reflexivity|].
+  cbn [forallb] in H. apply andb_true_iff in H as [Hr H].
+  destruct (md_facts r Hr) as (Hne & Hnd & Hk & Hnk & Hck & _).
+  assert (Hnext : forall m, 2 <= m -> msync (join [COMMA] (keys r)) (Some (keys r)) m) by (intros m Hm; now constructor).
+  inversion Hs as [|ks n0 Hks Hcks Hnks Hn0]; subst; unfold COMMA in *; cbn [md_lines].
+  - cbn [is_nil negb andb app]. rewrite md_fresh by assumption. now rewrite (IH _ _ _ (Hnext 3 ltac:(lia)) H).
+  - rewrite (join_not_nil [","] ks) by (assumption || discriminate). cbn [negb andb].
+    destruct (beqb_spec (join [","] (keys r)) (join [","] ks)) as [E|E].
+    + apply join_inj in E; [|discriminate|assumption|assumption|assumption|assumption]. subst ks.
+      cbn [negb]. rewrite (join_not_nil [","] (keys r)) by (assumption || discriminate). cbn [app].
+      rewrite M_data; [|lia|now apply val_row_ok|exact Hnd].
+      now rewrite (IH _ _ _ (Hnext (S n) ltac:(lia)) H).
+    + cbn [negb is_nil app]. rewrite M_blank. rewrite md_fresh by assumption.
+      now rewrite (IH _ _ _ (Hnext 3 ltac:(lia)) H).
+Qed.
+
+Lemma md_stream_lines_ok crlf recs : forall last,
+  forallb md_rec_ok recs = true -> forallb (line_ok crlf) (md_lines last recs) = true.
+Proof.
+  induction recs as [|r recs IH]; intros last H; [reflexivity|].
+  cbn [forallb] in H. apply andb_true_iff in H as [Hr H]. destruct (md_facts r Hr) as (Hne & _).
+  cbn [md_lines]. rewrite !forallb_app, (IH _ H). cbn [forallb].
+  destruct (key_row_ok r Hr) as [_ Hkl]. destruct (val_row_ok r Hr) as [_ Hvl]. destruct (sep_md_dashes r Hne) as (_ & _ & Hsl).
+  rewrite Hvl. cbn [andb].
+  assert (Hblank : line_ok crlf [] = true) by (unfold line_ok; cbn; destruct crlf; reflexivity).
+  destruct (negb (is_nil last) && negb (beqb (join [","] (keys r)) last)); cbn [forallb andb is_nil]; rewrite ?Hblank, ?Hkl, ?Hsl; cbn [andb];
+    try reflexivity.
+  destruct (is_nil last); cbn [forallb]; rewrite ?Hkl, ?Hsl; reflexivity.
+Qed.
+End Streaming.
+
+Lemma markdown_roundtrip_streaming w crlf dedupe ragged recs :
+  wf_markdown recs = true ->
+  read_markdown false dedupe ragged (write_markdown w false crlf recs) = Some recs.
+Proof.
+  unfold wf_markdown, read_markdown, write_markdown. intros H.
+  rewrite lines_of_unlines by (now apply md_stream_lines_ok).
+  apply md_stream; [constructor|exact H].
+Qed.
+
+(* ================================================================ the --omd-aligned writer *)
+Lemma md_row_aligned_grow {A} w (f : A -> bytes) (g : A -> nat) l :
+  md_row_aligned w (map (fun a => (md_escape (f a), g a)) l) = grow (map (fun a => (f a, g a - w (md_escape (f a)))) l).
+Proof.
+  unfold md_row_aligned, grow. f_equal. f_equal. rewrite !map_map. apply map_ext. intros a. unfold gcell. cbn [fst snd].
+  f_equal. f_equal. rewrite <- spaces_end, <- app_assoc. reflexivity.
+Qed.
+
+Lemma md_row_aligned_keys w (g : bytes -> nat) ks : forallb (nochar BAR) ks = true ->
+  md_row_aligned w (map (fun k => (k, g k)) ks) = grow (map (fun k => (k, g k - w (md_escape k))) ks).
+Proof.
+  intros H. rewrite <- (md_row_aligned_grow w (fun k => k) g). f_equal. apply map_ext_in. intros k Hk.
+  rewrite forallb_forall in H. now rewrite md_escape_nobar by (now apply H).
+Qed.
+
+(* the header-separator line of either writer *)
+Definition dash_line {A} (g : A -> nat) (l : list A) : bytes :=
+  BAR :: List.concat (map (fun a => SP :: DASHES ++ spaces (g a) ++ [SP; BAR]) l).
+
+Lemma dash_line_facts {A} (g : A -> nat) (l : list A) : l <> [] ->
+  is_nil (dash_line g l) = false /\ sep_md (dash_line g l) = true /\ forall crlf, line_ok crlf (dash_line g l) = true.
+Proof.
+  intros Hne. split; [reflexivity|].
+  set (P := fun c => eqc c "-" || eqc c ":" || eqc c BAR || eqc c SP).
+  set (cell := fun a : A => SP :: DASHES ++ spaces (g a) ++ [SP; BAR]).
+  assert (Hall : forall l : list A, forallb P (List.concat (map cell l)) = true).
+  { clear. induction l as [|x l IH]; [reflexivity|]. cbn [map List.concat]. rewrite forallb_app, IH, andb_true_r.
+    unfold cell. cbn [forallb DASHES B list_ascii_of_string app]. rewrite forallb_app.
+    replace (forallb P (spaces (g x))) with true; [reflexivity|]. symmetry. unfold spaces. now apply forallb_repeat. }
+  assert (Hnolf : forall l : list A, nochar LF (List.concat (map cell l)) = true).
+  { clear. induction l as [|x l IH]; [reflexivity|]. cbn [map List.concat]. rewrite nochar_app, IH, andb_true_r.
+    unfold cell. change (SP :: ?a) with ([SP] ++ a). rewrite !nochar_app, nochar_spaces by reflexivity. reflexivity. }
+  assert (Hlast : forall l : list A, l <> [] -> exists q, List.concat (map cell l) = q ++ [BAR] /\ 1 <= List.length q).
+  { clear. induction l as [|x l IH]; intros Hl; [congruence|]. cbn [map List.concat]. destruct l as [|y l].
+    - exists (SP :: DASHES ++ spaces (g x) ++ [SP]). split; [|cbn; lia].
+      cbn [map List.concat]. rewrite app_nil_r. unfold cell. cbn [app]. rewrite <- !app_assoc. reflexivity.
+    - destruct IH as (q & Hq & Hlen); [discriminate|]. rewrite Hq. exists (cell x ++ q).
+      split; [now rewrite <- app_assoc|rewrite app_length; lia]. }
+  destruct (Hlast l Hne) as (q & Hq & Hlen). unfold dash_line. fold cell.
+  split.
+  - unfold sep_md. rewrite Hq.
+    assert (H3 : Nat.leb 3 (List.length (BAR :: q ++ [BAR])) = true).
+    { apply Nat.leb_le. cbn [List.length]. rewrite app_length. cbn [List.length]. lia. }
+    rewrite H3. cbn [head_is]. change (eqc BAR BAR) with true. unfold last_is.
+    change (BAR :: q ++ [BAR]) with ((BAR :: q) ++ [BAR]). rewrite rev_app_distr. cbn [rev app head_is].
+    change (eqc BAR BAR) with true. cbn [andb]. change ((BAR :: q) ++ [BAR]) with (BAR :: q ++ [BAR]). rewrite <- Hq.
+    cbn [forallb]. fold P. now rewrite Hall.
+  - intros crlf. unfold line_ok. change (BAR :: ?a) with ([BAR] ++ a). rewrite nochar_app, Hnolf. cbn [nochar forallb negb andb].
+    rewrite Hq, app_assoc. rewrite ends_cr_app_ne by discriminate. cbn. now rewrite orb_true_r.
+Qed.
+
+Section Aligned.
+Variables (w : bytes -> nat) (crlf d rg : bool).
+Notation R := (md_read_go false d rg).
+Notation L := (md_batch_lines w).
+
+Lemma md_keys_of_jk r r' : md_rec_ok r = true -> md_rec_ok r' = true -> jk r = jk r' -> keys r = keys r'.
+Proof.
+  intros H H' E. destruct (md_facts r H) as (_ & _ & Hk & _ & Hc & _). destruct (md_facts r' H') as (_ & _ & Hk' & _ & Hc' & _).
+  unfold COMMA in *. apply (join_inj [","]); try assumption; discriminate.
+Qed.
+
+Lemma md_batch_read b rest : batch_inv b -> Forall (fun r => md_rec_ok r = true) b ->
+  R None 0 (L b ++ rest)
+  = match R (Some (keys (hd [] b))) (2 + List.length b) rest with None => None | Some rs => Some (b ++ rs) end.
+Proof.
+  intros [Hne Hj] Hok. destruct b as [|r0 b'] eqn:Eb; [congruence|]. rewrite <- Eb in *.
+  assert (H0 : md_rec_ok r0 = true) by (rewrite Forall_forall in Hok; apply Hok; rewrite Eb; now left).
+  destruct (md_facts r0 H0) as (Hr0 & _ & Hk0 & _ & _ & Hb0 & Hlf0 & Ht0 & _).
+  replace (hd [] b) with r0 by (now rewrite Eb).
+  assert (HL : L b = [md_row_aligned w (map (fun k => (k, md_width w b r0 k)) (keys r0)); dash_line (fun k => md_width w b r0 k - 3) (keys r0)]
+                     ++ map (fun r => md_row_aligned w (map (fun kv => (md_escape (snd kv), md_width w b r0 (fst kv))) r)) b).
+  { rewrite Eb. reflexivity. }
+  rewrite HL. cbn [app]. rewrite md_row_aligned_keys by assumption.
+  rewrite (M_header d rg _ (keys r0)).
+  2:{ rewrite <- (map_id (keys r0)) at 2. apply grow_pair_ok. now rewrite map_id. }
+  destruct (dash_line_facts (fun k => md_width w b r0 k - 3) (keys r0) Hk0) as (Hs1 & Hs2 & _).
+  rewrite M_sep by assumption.
+  rewrite M_batch; [reflexivity|lia|].
+  intros r Hr. rewrite Forall_forall in Hok. pose proof (Hok r Hr) as Hrk.
+  destruct (md_facts r Hrk) as (_ & Hnd & _ & _ & _ & _ & _ & _ & _ & Htv).
+  split; [|split; [|exact Hnd]].
+  - apply md_keys_of_jk; [assumption|assumption|]. rewrite (Hj r Hr). now rewrite Eb.
+  - rewrite (md_row_aligned_grow w (fun kv : bytes * bytes => snd kv) (fun kv => md_width w b r0 (fst kv))).
+    change (values r) with (map snd r). apply grow_pair_ok. exact Htv.
+Qed.
+
+Lemma md_read_batches bs :
+  Forall batch_inv bs -> Forall (Forall (fun r => md_rec_ok r = true)) bs ->
+  R None 0 (sep_lines L bs) = Some (List.concat bs).
+Proof.
+  induction bs as [|b bs IH]; intros Hinv Hok; [reflexivity|].
+  inversion Hinv as [|? ? Hb Hbs]; subst. inversion Hok as [|? ? Hob Hobs]; subst.
+  destruct bs as [|b2 bs].
+  - cbn [sep_lines List.concat]. rewrite <- (app_nil_r (L b)). rewrite md_batch_read by assumption. cbn [md_read_go]. reflexivity.
+  - change (sep_lines L (b :: b2 :: bs)) with (L b ++ [[]] ++ sep_lines L (b2 :: bs)).
+    rewrite md_batch_read by assumption. cbn [app]. rewrite M_blank. rewrite IH by assumption. reflexivity.
+Qed.
+
+Lemma md_batch_lines_ok b : batch_inv b -> Forall (fun r => md_rec_ok r = true) b -> forallb (line_ok crlf) (L b) = true.
+Proof.
+  intros [Hne Hj] Hok. destruct b as [|r0 b'] eqn:Eb; [congruence|]. rewrite <- Eb in *.
+  assert (H0 : md_rec_ok r0 = true) by (rewrite Forall_forall in Hok; apply Hok; rewrite Eb; now left).
+  destruct (md_facts r0 H0) as (Hr0 & _ & Hk0 & _ & _ & Hb0 & Hlf0 & Ht0 & _).
+  assert (HL : L b = [md_row_aligned w (map (fun k => (k, md_width w b r0 k)) (keys r0)); dash_line (fun k => md_width w b r0 k - 3) (keys r0)]
+                     ++ map (fun r => md_row_aligned w (map (fun kv => (md_escape (snd kv), md_width w b r0 (fst kv))) r)) b).
+  { rewrite Eb. reflexivity. }
+  rewrite HL. cbn [app forallb]. rewrite md_row_aligned_keys by assumption.
+  rewrite grow_pair_line_ok by (now rewrite map_id).
+  destruct (dash_line_facts (fun k => md_width w b r0 k - 3) (keys r0) Hk0) as (_ & _ & Hs3). rewrite Hs3. cbn [andb].
+  rewrite forallb_map. rewrite forallb_forall. intros r Hr. rewrite Forall_forall in Hok. pose proof (Hok r Hr) as Hrk.
+  destruct (md_facts r Hrk) as (_ & _ & _ & _ & _ & _ & _ & _ & Hlfv & _).
+  rewrite (md_row_aligned_grow w (fun kv : bytes * bytes => snd kv) (fun kv => md_width w b r0 (fst kv))).
+  apply grow_pair_line_ok. exact Hlfv.
+Qed.
+
+Lemma md_all_lines_ok bs :
+  Forall batch_inv bs -> Forall (Forall (fun r => md_rec_ok r = true)) bs -> forallb (line_ok crlf) (sep_lines L bs) = true.
+Proof.
+  induction bs as [|b bs IH]; intros Hinv Hok; [reflexivity|].
+  inversion Hinv as [|? ? Hb Hbs]; subst. inversion Hok as [|? ? Hob Hobs]; subst.
+  destruct bs as [|b2 bs]; [now apply md_batch_lines_ok|].
+  change (sep_lines L (b :: b2 :: bs)) with (L b ++ [[]] ++ sep_lines L (b2 :: bs)).
+  rewrite forallb_app, md_batch_lines_ok by assumption. cbn [andb app forallb]. rewrite (IH Hbs Hobs), andb_true_r.
+  unfold line_ok. cbn. now destruct crlf.
+Qed.
+End Aligned.
+
+Lemma md_aligned_sep w bs : md_aligned_lines w true bs = sep_lines (md_batch_lines w) bs.
+Proof.
+  destruct bs as [|b t]; [reflexivity|]. cbn [md_aligned_lines app]. revert b. induction t as [|b2 t IH]; intros b.
+  - cbn [md_aligned_lines sep_lines]. now rewrite app_nil_r.
+  - change (sep_lines (md_batch_lines w) (b :: b2 :: t)) with (md_batch_lines w b ++ [[]] ++ sep_lines (md_batch_lines w) (b2 :: t)).
+    cbn [md_aligned_lines]. f_equal. cbn [app]. f_equal. apply IH.
+Qed.
+
+Lemma markdown_roundtrip_aligned w crlf dedupe ragged recs :
+  wf_markdown recs = true ->
+  read_markdown false dedupe ragged (write_markdown w true crlf recs) = Some recs.
+Proof.
+  unfold wf_markdown. intros Hrecs.
+  destruct (pp_all_batches_spec recs) as [Hcat Hinv].
+  assert (Hok : Forall (Forall (fun r => md_rec_ok r = true)) (pp_all_batches recs)).
+  { rewrite Forall_forall. intros b Hb. rewrite Forall_forall. intros r Hr. rewrite forallb_forall in Hrecs. apply Hrecs.
+    rewrite <- Hcat. apply in_concat. exists b. split; assumption. }
+  unfold read_markdown, write_markdown. rewrite md_aligned_sep.
+  rewrite lines_of_unlines by (now apply md_all_lines_ok).
+  rewrite md_read_batches by assumption. now rewrite Hcat.
+Qed.
+
+Lemma markdown_roundtrip w aligned crlf dedupe ragged recs :
+  wf_markdown recs = true ->
+  read_markdown false dedupe ragged (write_markdown w aligned crlf recs) = Some recs.
+Proof. destruct aligned; [apply markdown_roundtrip_aligned|apply markdown_roundtrip_streaming]. Qed.
+
+(* the two former defects (repaired in /repo 80287c7ad, 75f65c604), as regression examples over the models *)
+Example markdown_escaped_bar_regression :
+  read_markdown false true false (write_markdown (@List.length ascii) false false [[(B "a", B "x|y"); (B "b", B "2")]])
+  = Some [[(B "a", B "x|y"); (B "b", B "2")]].
+Proof. vm_compute. reflexivity. Qed.
+Example markdown_dash_row_regression :
+  read_markdown false true false (write_markdown (@List.length ascii) false false [[(B "a", B "-"); (B "b", B "")]; [(B "a", B "---"); (B "b", B "-")]])
+  = Some [[(B "a", B "-"); (B "b", B "")]; [(B "a", B "---"); (B "b", B "-")]].
+Proof. vm_compute. reflexivity. Qed.
 
 (* what does hold on samples (a test, not a theorem: the general markdown round trip is not proved yet) *)
 Example markdown_roundtrip_sample :
